@@ -40,6 +40,11 @@ CHECKS = {
     technique='TLA+/TLC: batched validation of recorded transformations of the real Circuit against the hierarchical netlist semantics (TransformT.tla), all assignments enumerated as TLC states',
     text='For every cell name of all five built-in libraries in a one-instance host x connected-pin patterns (all, no inputs, no outputs, alternating, each single pin open), for random modules over library cells and random primitive circuits x compositions of copy, pickle, eliminate_1to1_forks, substitute (7 implementation shapes) and resolve_tlib_cells, TLC compares the meaning of the netlist before (a library cell = its implementation, pin by pin; hierarchical evaluation in TLA+) and after over ALL assignments of input ports and state elements, requires unchanged names and order of ports and state elements, no unresolved cell and no exception.',
     note='Transparent meaning (driven ports are ordinary signals). Unconnected instance input = reads 0; FuncKept is not claimed where an open pin is the last operand of an and/or/xor-type primitive (the primitives define arity by the highest connected pin - DESIGN §5.2). <= 7 sources per case. Trusted: TLC, JSON reader, harness projection, checked topological order.'),
+ 'C19': dict(
+    cat='model_checking', ref='DESIGN.md §4 C19, §3 (TechlibT, Netlist.CellOuts)',
+    technique='TLA+/TLC: model run of TechlibT.tla on the published pin tables and implementation circuits of all library cells; truth tables enumerated as TLC states',
+    text='Complete over the five built-in libraries (1026 names): pins listed once, numbered 0..n-1 in declaration order, in agreement with the implementation ports, every name of a pattern defined, pin names per vendor convention of the library variant; for the 656 cells of a combinational datasheet family (AND/OR/NAND/NOR/XOR/XNOR, buffers, inverters, AO/OA/AOI/OAI groupings incl. 221/222/33/211, MUX2/MUX4, half/full adders) TLC evaluates the implementation circuit with the TLA+ netlist semantics over all 2^n inputs and compares every output pin with the datasheet function its name denotes.',
+    note='Trusted: the name -> (family, pin grouping/roles, vendor pin names) classification table in harness/c19.py; TLC, JSON reader, projection. The evaluation is by the specification, not by kyupy\'s simulator (the simulator is bound to the same semantics by C01). Other cell families get pin-table checks only.'),
  'C07': dict(
     cat='model_checking', ref='DESIGN.md §4 C07, §3 (Schedule, ThreadOrder, SchedReplay)',
     technique='TLA+/TLC: model run of Schedule.tla on the published schedule (all Begin/End interleavings for narrow levels, level-wise static form for all); TLC-simulated thread orders (ThreadOrder.tla) replayed into the real simulators, judged by SchedReplay.tla',
